@@ -259,8 +259,8 @@ def check_link_loss(ctx):
         cfg = cfg_of(m_.node)
         a = [n for n in cfg.real_nodes() if any(c == first for c in n.call_names())]
         b = [n for n in cfg.real_nodes() if any(c == second for c in n.call_names())]
-        ok = len(a) == 1 and len(b) == 1 and cfg.dominates(a[0], b[0]) and cfg.count_on_paths(lambda n: n in a + b, cfg.entry, cfg.exit, no_exc=True) == (2, 2)
-        ctx.ob("C07.P4", m_.qualname, ok, f"{name}(): {first.split('.', 1)[1]} then {second.split('.', 1)[1]}, both on every path" if ok else f"{name}() does not perform {first} then {second} on every path", where=m_.where)
+        ok = len(a) == 1 and len(b) == 1 and cfg.count_on_paths(lambda n: n in a + b, cfg.entry, cfg.exit, no_exc=True) == (2, 2)
+        ctx.ob("C07.P4", m_.qualname, ok, f"{name}() performs {first.split('.', 1)[1]} and {second.split('.', 1)[1]} on every path" if ok else f"{name}() does not perform both {first} and {second} on every path", where=m_.where)
 
 
 def check_timers(ctx, m):
